@@ -122,7 +122,7 @@ def run(tier):
             ck.accepted()
     ck.cov["outcomes"] = outcomes
     # ---- design level: the pipeline for arbitrary requests (PipelineFaults.tla), and its admitted outcomes replayed into the code ----------------------
-    pbad, admitted = models.pipeline_faults_model(ck, impl.lib(), [(2, "all", "TargetsAll")] + ([] if quick else [(3, "linear", "TargetsSorted")]))
+    pbad, admitted = models.pipeline_faults_model(ck, impl.lib(), [(2, "all", "TargetsAll")] + ([] if quick else [(3, "linear", "TargetsSorted"), (3, "all", "TargetsSorted")]))
     for b in pbad:
         ck.violation(f"design {b}", f"the design-level model of the pipeline for arbitrary requests violates {b} with the repository's tables", {"design": b})
     if len(admitted) != 2048:
